@@ -182,16 +182,21 @@ def selectServices (unified : Bool) (cfgNs : String) (ps : List PHost) (mp : Opt
 
 /-! ### exact-host fast path -/
 
-/-- `PushContext.servicesForExactHosts` -/
-def servicesForExactHosts (m : Mesh) (svcs : List Svc) (cfgNs : String) (ps : List PHost) : List Svc :=
-  let cands := (hostKeys ps).flatMap fun ns =>
+/-- the `HostnameAndNamespace` entries the exact hosts name (all of them, visible or not) -/
+def exactLookups (svcs : List Svc) (ps : List PHost) : List Svc :=
+  (hostKeys ps).flatMap fun ns =>
     match hcFor ps ns with
     | none => []
-    | some hc => hc.exact.eraseDups.filterMap fun h =>
-        match lookupHN svcs h ns with
-        | some svc => if isServiceVisible m svc cfgNs then some svc else none
-        | none => none
-  sortServices cands
+    | some hc => hc.exact.eraseDups.filterMap fun h => lookupHN svcs h ns
+
+/-- `PushContext.servicesForExactHosts`.  `exactGuard` = the repaired behaviour: when an indexed
+    service is hidden from `cfgNs` the index cannot answer (it keeps one service per (hostname,
+    namespace)) and the scan list is returned; `false` = before the fix (hidden entries skipped). -/
+def servicesForExactHosts (exactGuard : Bool) (m : Mesh) (svcs : List Svc) (cfgNs : String) (ps : List PHost) : List Svc :=
+  let looked := exactLookups svcs ps
+  if exactGuard && looked.any (fun s => !isServiceVisible m s cfgNs) then
+    servicesExportedToNamespace m svcs cfgNs
+  else sortServices (looked.filter fun s => isServiceVisible m s cfgNs)
 
 /-! ### VirtualServices -/
 
@@ -363,6 +368,7 @@ structure Flags where
   pickBest : Bool := true     -- PILOT_SIDECAR_PICK_BEST_SERVICE_NAMESPACE
   enhanced : Bool := true     -- ENABLE_ENHANCED_DESTINATIONRULE_MERGE
   visGuard : Bool := true     -- the repaired `collectImportedServices` (false: behaviour before the fix)
+  exactGuard : Bool := true   -- the repaired `servicesForExactHosts` (false: behaviour before the fix)
 deriving Repr, Inhabited
 
 structure ILW where
@@ -375,7 +381,7 @@ deriving Repr, Inhabited
 /-- `convertIstioListenerToWrapper` -/
 def convertListener (f : Flags) (m : Mesh) (svcs : List Svc) (vss : List VS) (cfgNs : String) (l : Listener) : ILW :=
   let ps := parseHosts cfgNs l.hosts
-  let cands := if allExact ps then servicesForExactHosts m svcs cfgNs ps
+  let cands := if allExact ps then servicesForExactHosts f.exactGuard m svcs cfgNs ps
                else servicesExportedToNamespace m svcs cfgNs
   { matchPort := l.matchPort, hosts := ps,
     vss := selectVirtualServices f.unified m vss cfgNs ps,
